@@ -53,14 +53,15 @@ def is_gz_path(path):
 # observation helpers (shared with the restorer child)
 # --------------------------------------------------------------------------
 
-def evaluate_all(model):
+def evaluate_all(model, ev=None):
     """Outcome of evaluating every cell (sorted by address), canonical."""
     from xlcalculator import Evaluator
     out = {}
     cells = getattr(model, 'cells', None)
     if not isinstance(cells, dict):
         return {'<model>': ['raw', 'cells is not a dict']}
-    ev = Evaluator(model)
+    if ev is None:
+        ev = Evaluator(model)
     for a in sorted(cells, key=str):
         st = Stepper(max_steps=SAFETY_STEPS)
         with st:
@@ -102,8 +103,14 @@ def restore_and_observe(path, build_code):
 def gen_case(seed, tier='quick'):
     rng = random.Random(seed)
     faulty = rng.random() < 0.45
-    world = worlds.gen_world(rng, extremes=True, range_names=True,
-                             stale=rng.random() < 0.3)
+    if rng.random() < 0.15:
+        # the model comes from loading a generated .xlsx workbook
+        from .. import xlsx
+        world = worlds.world_from_workbook(
+            xlsx.gen_workbook(rng), {'seed': rng.randrange(1 << 30)})
+    else:
+        world = worlds.gen_world(rng, extremes=True, range_names=True,
+                                 stale=rng.random() < 0.3)
     order = world['order']
     inputs = [a for a in order if world['level'][a] == 0]
     formulas = [a for a in order if world['level'][a] > 0]
@@ -186,7 +193,7 @@ def gen_case(seed, tier='quick'):
             ops.append(persist())
             ops.append(restore(ops[-1]['path']))
             ops[-1]['reuse'] = True
-        elif r < 0.72 and world['names']:
+        elif r < 0.72 and world['names'] and not world.get('xlsx'):
             # from here on the live model is a sibling workbook: same names
             # and formula texts, other bindings
             ops.append({'op': 'sibling'})
@@ -428,6 +435,9 @@ def _run(case, fs, amb):
             if op.get('reuse'):
                 if 'obj' not in reuse:
                     reuse['obj'] = Model()
+                    # an evaluator that exists before the object is filled
+                    # and is kept for every later restore into it
+                    reuse['ev'] = Evaluator(reuse['obj'])
                 else:
                     bump('probe:restore_into_used_model_object')
                 new = reuse['obj']
@@ -472,7 +482,8 @@ def _run(case, fs, amb):
             if not op.get('build_code'):
                 outcome_of(new.build_code)
             if snap['values'] is not None:
-                vals = evaluate_all(new)
+                vals = evaluate_all(
+                    new, reuse.get('ev') if op.get('reuse') else None)
                 if vals != snap['values']:
                     viol = fail('restored-model-evaluates-differently', seq,
                                 path=path, persisted_in_state=snap['state'],
@@ -507,6 +518,7 @@ def _run(case, fs, amb):
                     break
             if op.get('reuse') and (op.get('adopt') or model is None):
                 reuse.pop('obj', None)
+                reuse.pop('ev', None)
             if op.get('adopt') or model is None:
                 # the restored model becomes the live one (next generation);
                 # it is compiled now and was observed by evaluate_all above
@@ -524,8 +536,10 @@ def finding_key(case, viol):
 
 
 def reducers(case):
-    yield from c04.drop_cell_candidates(case)
     w = case['world']
+    if w.get('xlsx') is not None:
+        return
+    yield from c04.drop_cell_candidates(case)
     for a in list(w['stale']):
         c = copy.deepcopy(case)
         del c['world']['stale'][a]
